@@ -178,6 +178,17 @@ WarBaseAfterMem(prog, fin) ==
     /\ InsAt(prog, fin, i).rs1 \in Writes(prog, fin, j)
     /\ \E h \in 1 .. (i - 1) : i - h <= 2 /\ InsAt(prog, fin, h).op \in LoadOps \cup StoreOps
 
+(* F03f (MVP-6.1 .. 6.3 and MVP-8 with >= 2 units): a conditional branch that waits for a loaded value and is  *)
+(* NOT taken, followed within 4 executed instructions by a taken conditional branch whose next instruction in *)
+(* the text is a jump: the run ends early (the wrong-path jump takes effect).  Witness only; not minimised.   *)
+SlowBranchThenShadowJump(prog, fin) ==
+  \E k \in 1 .. N(fin), m \in 1 .. N(fin) :
+    /\ k < m /\ m - k <= 4
+    /\ InsAt(prog, fin, k).op \in CondOps /\ ~fin.ev[k].t
+    /\ \E h \in 1 .. (k - 1) : k - h <= 10 /\ IsLoadAt(prog, fin, h) /\ (Writes(prog, fin, h) \cap Reads(prog, fin, k)) # {}
+    /\ InsAt(prog, fin, m).op \in CondOps /\ fin.ev[m].t
+    /\ fin.ev[m].i + 2 <= Len(prog) /\ prog[fin.ev[m].i + 2].op \in {"j", "jal"}
+
 Tags(prog, fin) ==
   (IF RetAfterStoreMiss(prog, fin) THEN {"ret_after_store_miss"} ELSE {})
   \cup (IF RetDropsInflight(prog, fin) THEN {"ret_drops_inflight"} ELSE {})
@@ -193,5 +204,6 @@ Tags(prog, fin) ==
   \cup (IF ShadowStoreHit(prog, fin) THEN {"shadow_store_hit"} ELSE {})
   \cup (IF ShadowTrap(prog, fin) THEN {"shadow_trap"} ELSE {})
   \cup (IF WarBaseAfterMem(prog, fin) THEN {"war_base_after_mem"} ELSE {})
+  \cup (IF SlowBranchThenShadowJump(prog, fin) THEN {"slow_branch_then_shadow_jump"} ELSE {})
   \cup (IF N(fin) > 150 /\ L3Overflow(prog, fin) THEN {"l3_overflow_with_stores"} ELSE {})
 =======================================================================
